@@ -365,16 +365,7 @@ func genMain(r *vhlib.Rng, thorough, mixedG bool) *Dataset {
 	}
 	for b := 0; b < nb; b++ {
 		ix := batchIdx(ds.Evs, b)
-		// (1) IsNumeric: a batch without any numeric f (only strings, or f absent from all its events), while numbers exist elsewhere
-		hasP, hasN := false, false
-		for _, i := range ix {
-			hasP = hasP || ds.Evs[i].F.present()
-			hasN = hasN || ds.Evs[i].F.numeric()
-		}
-		_ = hasP
-		if anyNum && !hasN {
-			ds.Evs[ix[r.Intn(len(ix))]].F = Val{K: "int", I: int64(r.Range(1, 9))}
-		}
+		// (1) (lifted with fixes/C04-merge-isnumeric: batches without any numeric f are main-stream input now)
 		// (2) group key: a numeric / bool key only in batches that also hold a string key
 		if gk == "mixed" {
 			hasS, hasO := false, false
@@ -397,20 +388,7 @@ func genMain(r *vhlib.Rng, thorough, mixedG bool) *Dataset {
 			}
 		}
 	}
-	// (4) earliest/latest: the first and the last event carry f (unless f is absent everywhere)
-	if fk != "absent" && fk != "strs" {
-		for _, i := range []int{0, n - 1} {
-			if !ds.Evs[i].F.present() || (anyNum && !ds.Evs[i].F.numeric() && len(batchIdx(ds.Evs, ds.Evs[i].Batch)) == 1) {
-				ds.Evs[i].F = Val{K: "int", I: int64(r.Range(1, 9))}
-			}
-		}
-	} else if fk == "strs" {
-		for _, i := range []int{0, n - 1} {
-			if !ds.Evs[i].F.present() {
-				ds.Evs[i].F = Val{K: "str", S: "x"}
-			}
-		}
-	}
+	// (4) (lifted with fixes/C04-latest-earliest-skip-missing: the first / last event may lack f)
 	last := ds.Evs[n-1].Ts
 	span := uint64(ds.SpanS) * 1000
 	ds.Start = T0 - uint64(r.Range(0, 5000))
@@ -427,7 +405,7 @@ func genMain(r *vhlib.Rng, thorough, mixedG bool) *Dataset {
 	q("stats", "* | eval zz=1 | stats "+statsList("f", true, true), func(x *Query) { x.Field, x.VL, x.TS = "f", true, true })
 	q("stats", "* | stats "+statsList("d", true, false), func(x *Query) { x.Field, x.VL = "d", true })
 	q("stats", "* | eval zz=1 | stats "+statsList("f", true, false), func(x *Query) { x.Field, x.VL = "f", true })
-	if fk == "ints" || fk == "dups" || fk == "floats" { // a filter can leave a block without any numeric f
+	{
 		cut := r.Range(1, n-1)
 		q("stats", fmt.Sprintf("id>=%d | stats %s", cut, statsList("f", true, false)), func(x *Query) { x.Field, x.VL, x.Filter = "f", true, cut })
 	}
@@ -1754,12 +1732,10 @@ func coqStatsCase(ds *Dataset, q Query, o WObs) (string, bool) {
 		return "", false // list() truncation at MAX_SPL_LIST_SIZE is outside the model
 	}
 	// which path answers the query: ingest-time .sst records only for match-all, fully enclosed, no values/list/time measures
-	// raw-record path: the time functions run for every matched record; pipeline path (after eval): only
-	// when the query has earliest/latest
-	wt := q.VL || q.TS || q.Filter > 0 || q.FilterC != "" || q.Cut != ""
-	if strings.Contains(q.Text, "eval") {
-		wt = q.TS
-	}
+	// the time stats of the column are tracked for queries with earliest/latest; with the fixed code
+	// they only advance on records that have the column (records created for events without it by
+	// the block-level time bounds of other raw-path queries carry no observable)
+	wt := q.TS
 	obs := fmt.Sprintf("mkO %s %s (%s) %s (%s) (%s) (%s) %s %s %s %s (%s) (%s)", vhlib.CoqBool(wt),
 		coqCount(row, "count("+f+")"), coqOvalM(row, "sum("+f+")"), coqQ(row.M["avg("+f+")"]),
 		coqOvalM(row, "min("+f+")"), coqOvalM(row, "max("+f+")"), coqOvalM(row, "range("+f+")"),
